@@ -24,6 +24,7 @@ LEVEL_TEXT = (
     "element-wise, without IndexError' - NOT which element: nearest-ness, mid-points and idempotence are numerical."
     " (R4) a structural necessary condition of nearest-ness IS decided: the step back to the previous element is taken on an exact comparison of the two neighbour distances (previous closer), never on a tolerance."
     " The output buffer's dtype must not be inherited from the data (an integer input would truncate the snapped values); when the snapping is delegated to helpers the front end cannot read, the element verdicts are withdrawn (undecided) and the dtype / searchsorted-side rules stay armed."
+    ' The dtype rule also follows an explicit dtype= read off a caller-supplied array; no snapping table is looked up by the identity of a grid (R5).'
 )
 TECHNIQUE = "AST/reaching-definitions provenance rule + clamp idiom table"
 
